@@ -282,7 +282,10 @@ def run(ck):
     thorough = ck.thorough()
     vias = ['loop', 'dispatch', 'sa']
     confs = [{}, dict(ike_a={'encr': ['aes128'], 'integ': ['sha1'], 'prf': ['sha1'], 'dh': ['19']}, ipsec_proto='ah'),
-             dict(ike_a={'encr': ['aes256'], 'integ': ['sha512'], 'prf': ['sha512'], 'dh': ['19']}, v6=True)]
+             dict(ike_a={'encr': ['aes256'], 'integ': ['sha512'], 'prf': ['sha512'], 'dh': ['19']}, v6=True),
+             dict(auth='rsa', mode='tunnel', a_subnet='10.1.0.0/24', b_subnet='10.2.0.0/24'),
+             dict(ike_a={'encr': ['aes128'], 'integ': ['sha256'], 'prf': ['sha512'], 'dh': ['14']}, child_a={'encr': ['aes128'], 'integ': ['sha1'], 'dh': ['19']}),
+             dict(ike_a={'encr': ['aes256'], 'integ': ['sha1'], 'prf': ['sha256'], 'dh': ['20']}, ipsec_proto='ah', v6=True, mode='tunnel')]
     n = 0
     for ci, conf in enumerate(confs if thorough else confs[:2]):
         for name in CATALOGUE:
